@@ -511,6 +511,35 @@ func checkProperty(p *Program, prop, tier string, timeoutS, workers int, start t
 			}
 		}
 	}
+	// supporting obligations: a postcondition that counts for this property is proved from the function's loop invariants, from
+	// the preconditions of its callees and under the modelling obligations of its body (unmarshal targets hold the zero value,
+	// slice and arithmetic safety). When only some clauses of a function are tagged with the property (clause tags, invariant
+	// closure), those supporting obligations count for it as well: otherwise a change that breaks the model of the body
+	// (S131: a decode target reused across iterations inside an inlined callee) leaves the counted postcondition "proved" from
+	// a body the engine has itself declared undecided.
+	if os.Getenv("GOVC_NO_SUPPORT_CLOSURE") == "" {
+		for _, r := range results {
+			if r.Contract == nil || r.Contract.Kind != "func" {
+				continue
+			}
+			counts := false
+			for _, o := range r.Obls {
+				if hasProp(o.Props, prop) {
+					counts = true
+					break
+				}
+			}
+			if !counts {
+				continue
+			}
+			for _, o := range r.Obls {
+				if hasProp(o.Props, prop) || strings.Contains(o.Name, "#post:") {
+					continue
+				}
+				o.Props = append(append([]string{}, o.Props...), prop)
+			}
+		}
+	}
 	runDir := filepath.Join(p.verif, ".cache", "run-"+prop)
 	os.RemoveAll(runDir)
 	sv := newSolver(runDir, timeoutS, tier == "thorough")
